@@ -15,13 +15,14 @@ LEVEL_TEXT = ('Lean 4 theorems, for all shapes, masks, amplitudes and OPDs: a su
               'restricted to s (slice_offset regenerated from helper.py on every run); the phasors of masks with pairwise disjoint supports '
               'add up to the phasor of the global mask, also with overlapping bounding boxes; a plane multiplies the summed embedding by its '
               'transmission, so chains of planes give the same total field for both descriptions; propagate_dft is additive in the embedded '
-              'field; intensity is the squared modulus of the coherent sum. The NumPy plumbing is a hand model checked against the '
+              'field; intensity is the squared modulus of the coherent sum; composed end to end (segmented_eq_monolithic_end_to_end): fresh wavefront, '
+              'any chain of partitioned planes, propagation (generated window block) -> equal Wavefront.field and intensity at every sample. The NumPy plumbing is a hand model checked against the '
               'implementation, with both descriptions run on the real code.')
 LEVEL_NOTE = ('Partial: segments / intermediate fields with exactly one element are excluded by hypothesis (open known finding '
               'KF-C03-one-pixel-segment); propagation is modelled for tilt-free fields without output mask (tilt and masks: C04, C02). '
               'Trusted: Lean kernel, py2lean subset semantics, NumPy semantics as modelled, np.dot sums, generator coverage.')
 TECHNIQUE = 'Lean 4 proof (omega/induction/Finset sums) over translator-regenerated kernels + hand model with differential correspondence'
-GEN = ['Extent', 'FieldIdx', 'Helper']
+GEN = ['Extent', 'FieldIdx', 'Helper', 'Window']
 OPS = ['C07', 'C03']
 RULE = ('cases: random supports on shapes 2..7, partitions into 1..5 segments (random labels = overlapping bounding boxes in half the cases, '
         'bands otherwise), chains of 1..3 masked Pupil planes with scalar/array amplitude and OPD, each plane described segmented or '
@@ -32,10 +33,10 @@ TRUSTED = ['NumPy slicing/broadcasting in Plane.multiply and util.boundary (mode
            'np.dot / einsum in fourier.dft2 compute the sums of products (Model/Fourier.lean; C01 checks dft2 itself)',
            'np.exp(1j*t) = cos t + i sin t']
 UNPROVEN = [
-            'the tilted-segments class (fit_tilt metadata, prop_shape < shape, chain-overlapping output fields) is checked by the oracle on the real code only: per-field tilt shifts are outside Model/PropSeg.lean (C04/C02 model them); the merge step it exercises is covered by C06 reduce_total/reduce_pairwise_disjoint and C07 intensity_eq_normSq_field',
+            'chains with tilt elements (Tilt planes, Wavefront(tilt=), fitted tilts) are covered by correspondence (Model/PlaneTilt.lean + builderB Model/Propagate.lean, Model/Tilt.lean) and by the oracle; the end-to-end theorem is stated for tilt-free chains (tilt shifts: C04)',
             'partitions containing a segment (or producing an intermediate field) with exactly one element (known finding KF-C03-one-pixel-segment)',
             'propagation with fitted tilt or an output mask is outside this model (C04, C02)']
-ASSUMPTIONS = ['every segment bounding box and every intermediate field has more than one element',
+ASSUMPTIONS = ['every segment bounding box and every intersection of boxes along the chain has more than one element (ExtOK: a condition on the bounding slices and shapes of the input, used by segmented_eq_monolithic_end_to_end)',
                'segment masks of one plane have pairwise disjoint supports']
 
 def _split_plane(rng, mode, shape):
@@ -49,9 +50,10 @@ def _split_plane(rng, mode, shape):
         amp = H7._attr(rng, mode, 'amp', shape, bool(rng.integers(0, 4) == 0))
         opd = H7._attr(rng, mode, 'opd', shape, bool(rng.integers(0, 4) == 0))
         def mk(ls):
+            sc = int(rng.choice([1, 1, 1, 2, -1]))          # raw mask entries other than 0/1: the constructor normalises them
             return {'kind': 'pupil', 'amp': amp, 'opd': opd, 'px': None, 'fl': 1.0,
                     'mask': {'shape': [int(shape[0]), int(shape[1])], 'ndim': 2 if len(ls) == 1 else 3,
-                             'layers': [[int(x) for x in L.ravel()] for L in ls]}}
+                             'layers': [[int(x) * sc for x in L.ravel()] for L in ls]}}
         return mk(layers), mk([M])
     raise RuntimeError('could not build a partition')
 
@@ -123,12 +125,57 @@ def gen_tilt(rng):
             'amp': amp, 'piston': piston, 'shifts': shifts, 'dx': dx, 'du': du, 'fl': fl, 'os': os_, 'wavelength': wl,
             'oshape': oshape, 'pshape': pshape, 'chain': chain}
 
+def gen_mixed(rng):
+    """chains mixing Tilt planes / Wavefront(tilt=...) with segmented Pupil planes (no fitted tilt): tilt elements before AND
+    after the segmented plane(s) in most cases; both descriptions (segmented / monolithic) of every Pupil"""
+    for _ in range(200):
+        shape = (int(rng.integers(3, 8)), int(rng.integers(3, 8)))
+        npl = int(rng.integers(1, 3))
+        seg, mono = [], []
+        for i in range(npl):
+            a, b = _split_plane(rng, 'cf', shape)
+            seg.append(a); mono.append(b)
+        if not any(len(p['mask']['layers']) > 1 for p in seg): continue
+        if H7.has_one_element_field(seg) or H7.has_one_element_field(mono): continue
+        dx = [1.0, 1.0] if rng.integers(0, 2) else [1.0, 2.0]
+        fl = float(rng.integers(2, 9))
+        os_ = int(rng.integers(1, 3))
+        du = [float(rng.integers(1, 4)), float(rng.integers(1, 4))] if rng.integers(0, 2) else [2.0, 2.0]
+        alpha = float(rng.uniform(0.04, 0.25))
+        wl = float(np.round(dx[0] * du[0] / (alpha * fl * os_), 4))
+        for p in seg + mono: p['px'] = dx; p['fl'] = fl
+        def tilt():
+            # a few output pixels of displacement, sub-pixel part included
+            s = rng.uniform(-3, 3, 2)
+            return {'kind': 'tilt', 'x': float(np.round(s[0] * du[1] / (fl * os_), 6)), 'y': float(np.round(s[1] * du[0] / (fl * os_), 6))}
+        pat = int(rng.integers(0, 8))          # bit 0: tilt before, bit 1: tilt after, bit 2: Wavefront(tilt=)
+        if pat == 0: pat = 3
+        order = []          # indices into planes or 'T'
+        if pat & 1: order.append(tilt())
+        for i in range(npl):
+            order.append(i)
+            if i + 1 < npl and rng.integers(0, 2): order.append(tilt())
+        if pat & 2:
+            order.append(tilt())
+            if rng.integers(0, 3) == 0: order.append(tilt())
+        wt = None
+        if pat & 4:
+            t = tilt(); wt = [t['x'], t['y']]
+        oshape = [int(rng.integers(3, 7)), int(rng.integers(3, 7))]
+        pshape = None
+        if rng.integers(0, 3) == 0: pshape = [int(rng.integers(2, oshape[0] + 1)), int(rng.integers(2, oshape[1] + 1))]
+        return {'kind': 'mixed', 'mode': 'cf', 'seg': seg, 'mono': mono, 'order': order, 'wtilt': wt, 'wavelength': wl,
+                'prop': {'du': du, 'os': os_, 'shape': oshape, 'prop_shape': pshape, 'dx': dx, 'z': fl}}
+    raise RuntimeError('generator could not build a mixed chain')
+
 def generate(rng, tier):
     n = {'quick': 150, 'thorough': 3000, 'search': 1000}[tier]
     out = []
     for k in range(n):
         if k % 7 == 6:
             out.append(gen_tilt(rng)); continue
+        if k % 7 == 5:
+            out.append(gen_mixed(rng)); continue
         t = k % 5
         if t in (0, 1): out.append(gen_case(rng, 'gi', prop=False))
         elif t == 2: out.append(gen_case(rng, 'cf', prop=False))
@@ -136,6 +183,9 @@ def generate(rng, tier):
     return out
 
 def signature(c):
+    if c['kind'] == 'mixed':
+        o = ''.join('T' if isinstance(x, dict) else f"P{len(c['seg'][x]['mask']['layers'])}" for x in c['order'])
+        return f"mixed {'W' if c['wtilt'] else ''}{o} {c['seg'][0]['mask']['shape']} {vlib.jhash(c['seg'])[:6]} prop={c['prop']}"
     if c['kind'] == 'tilt':
         return f"tilt {c['shape']} K={len(c['layers'])} os={c['os']} P={c['pshape']} out={c['oshape']} shifts={c['shifts']} du={c['du']}"
     s = ' | '.join(f"{p['mask']['shape']} k={len(p['mask']['layers'])} amp:{H7._akind(p['amp'])} opd:{H7._akind(p['opd'])} {vlib.jhash(p['mask'])[:6]}"
@@ -143,10 +193,16 @@ def signature(c):
     return f"{c['mode']} {s} prop={c.get('prop')}"
 
 def nontrivial(c):
-    if c['kind'] == 'tilt': return True
+    if c['kind'] in ('tilt', 'mixed'): return True
     return any(len(p['mask']['layers']) > 1 for p in c['seg'])
 
 def tags(c):
+    if c['kind'] == 'mixed':
+        idx = [i for i, x in enumerate(c['order']) if not isinstance(x, dict)]
+        before = bool(c['wtilt']) or any(isinstance(x, dict) for x in c['order'][:idx[0]])
+        after = any(isinstance(x, dict) for x in c['order'][idx[0] + 1:])
+        return ['mixed-tilt-chain', 'mixed:tilt-before+after' if before and after else 'mixed:tilt-before' if before else 'mixed:tilt-after',
+                'mixed:Wavefront(tilt)' if c['wtilt'] else 'mixed:no-wavefront-tilt']
     if c['kind'] == 'tilt':
         return ['tilted-segments', f"tilt:K={len(c['layers'])}", 'tilt:chain-spacing' if c['chain'] else 'tilt:random-spacing']
     t = [f"mode:{c['mode']}", f"planes:{len(c['seg'])}", 'propagated' if 'prop' in c else 'not-propagated']
@@ -192,14 +248,40 @@ def _run_tilt(c):
         tx = sr * du[0] / (z * os_); ty = -sc * du[1] / (z * os_)
         opd += mask[k] * (tx * r * dx[0] + ty * (-q) * dx[1] + c['piston'][k])
     pupil = lentil.Pupil(amplitude=amp, mask=mask, opd=opd, pixelscale=tuple(dx), focal_length=z)
-    wA = lentil.Wavefront(c['wavelength']) * pupil.fit_tilt()
+    fitted = pupil.fit_tilt()
+    wA = lentil.Wavefront(c['wavelength']) * fitted
+    pre = {'opd': [float(x) for x in np.asarray(fitted.opd).ravel()], 'amp': [float(x) for x in amp.ravel()],
+           'seg_tilts': [[[float(t.y), float(t.x)] for t in fitted.tilt[n::fitted.size]] for n in range(fitted.size)],
+           'fields': [dict(H7.fld_out(f, 'cf'), tilts=_tilt_vals(f)) for f in wA.data]}
     wA = lentil.propagate_dft(wA, pixelscale=tuple(du), shape=c['oshape'], prop_shape=c['pshape'], oversample=os_)
     wB = lentil.Wavefront(c['wavelength']) * pupil
     wB = lentil.propagate_dft(wB, pixelscale=tuple(du), shape=c['oshape'], oversample=os_)
-    return {'shape': [int(x) for x in wA.shape], 'chips': [_chip(f) for f in wA.data], 'full': [_chip(f) for f in wB.data],
+    return {'pre': pre, 'shape': [int(x) for x in wA.shape], 'chips': [_chip(f) for f in wA.data], 'full': [_chip(f) for f in wB.data],
             'field': H7.arr_out(wA.field, 'cf'), 'intensity': H7.arr_out(wA.intensity, 'cf')}
 
+def _tilt_vals(f):
+    # Tilt.__init__ stores self.x = y, self.y = x: report the constructor arguments (x, y)
+    return [[float(t.y), float(t.x)] for t in f.tilt]
+
+def _run_mixed(c, planes):
+    lentil = vlib.import_lentil()
+    wl = c['wavelength']
+    w = lentil.Wavefront(wavelength=wl, tilt=c['wtilt'])
+    for x in c['order']:
+        w = w * (lentil.Tilt(x=x['x'], y=x['y']) if isinstance(x, dict) else H7.build_plane(planes[x], 'cf', wl))
+    o = {'fields': [dict(H7.fld_out(f, 'cf'), tilts=_tilt_vals(f)) for f in w.data], 'focal': float(w.focal_length)}
+    p = c['prop']
+    w2 = lentil.propagate_dft(w, pixelscale=tuple(p['du']), shape=tuple(p['shape']),
+                              prop_shape=None if p['prop_shape'] is None else tuple(p['prop_shape']), oversample=p['os'])
+    o['field'] = H7.arr_out(w2.field, 'cf'); o['intensity'] = H7.arr_out(w2.intensity, 'cf'); o['nout'] = len(w2.data)
+    return o
+
 def impl(c):
+    if c['kind'] == 'mixed':
+        try:
+            return {'seg': _run_mixed(c, c['seg']), 'mono': _run_mixed(c, c['mono'])}
+        except (ValueError, IndexError, TypeError) as e:
+            return {'exc': type(e).__name__, 'msg': str(e)[:200]}
     if c['kind'] == 'tilt':
         try:
             return _run_tilt(c)
@@ -219,31 +301,80 @@ def _req(c, planes):
         r['prop'] = {'dx': vlib.fl(p['dx']), 'du': vlib.fl(p['du']), 'os': p['os'], 'shape': p['shape'], 'prop_shape': p['prop_shape'] or p['shape']}
     return r
 
+def _prop_req(p):
+    return {'dx': vlib.fl(p['dx']), 'du': vlib.fl(p['du']), 'os': p['os'], 'shape': p['shape'], 'prop_shape': p['prop_shape'] or p['shape']}
+
+def _mixed_req(c, planes):
+    els = []
+    for x in c['order']:
+        if isinstance(x, dict): els.append({'kind': 'tilt', 'x': vlib.fbits(x['x']), 'y': vlib.fbits(x['y'])})
+        else: els.append(H7.plane_req(dict(planes[x], px=[int(v) for v in planes[x]['px']]), 'cf'))
+    return {'op': 'c03.chain', 'wavelength': vlib.fbits(c['wavelength']), 'wtilt': None if c['wtilt'] is None else vlib.fl(c['wtilt']),
+            'elements': els, 'prop': _prop_req(c['prop'])}
+
 def requests(c, io):
-    if c['kind'] == 'tilt': return []        # oracle-only class: propagation with tilt shifts is outside Model/PropSeg.lean
+    if c['kind'] == 'mixed': return [_mixed_req(c, c['seg']), _mixed_req(c, c['mono'])]
+    if c['kind'] == 'tilt':
+        # the fitted OPD and tilt coefficients come from np.linalg.lstsq (trusted contract, C04): the model takes the fitted plane
+        if 'exc' in io: return []
+        sh = c['shape']
+        pl = {'kind': 'pupil', 'amp': {'shape': sh, 'v': vlib.fl(io['pre']['amp'])}, 'opd': {'shape': sh, 'v': vlib.fl(io['pre']['opd'])},
+              'mask': {'shape': sh, 'layers': c['layers']}, 'px': [int(x) for x in c['dx']], 'fl': vlib.fbits(c['fl']),
+              'seg_tilts': [[vlib.fl(t) for t in l] for l in io['pre']['seg_tilts']]}
+        return [{'op': 'c03.chain', 'wavelength': vlib.fbits(c['wavelength']), 'wtilt': None, 'elements': [pl],
+                 'prop': {'dx': vlib.fl(c['dx']), 'du': vlib.fl(c['du']), 'os': c['os'], 'shape': [c['oshape']] * 2, 'prop_shape': [c['pshape']] * 2}}]
     return [_req(c, c['seg']), _req(c, c['mono'])]
 
-def _scale(c):
-    s = 1.0
+def _scale(c, key='field', pre=False):
+    """bound on the compared quantity (tolerance = 1e-9*(1 + this)): |field| <= prod max|amp| before propagation and
+    <= prod max|amp| * (number of pupil samples) after the unitary DFT; intensity: its square"""
+    f = 1.0
     for p in c['mono']:
         a = p['amp']
-        s *= max(1.0, max(abs(x) for x in a['v']) if 'v' in a else abs(a['scalar']))
-    n = max(p['mask']['shape'][0] * p['mask']['shape'][1] for p in c['mono'])
-    return (s * n) ** 2 + 1
+        f *= max(1.0, max(abs(x) for x in a['v']) if 'v' in a else abs(a['scalar']))
+    if 'prop' in c and not pre: f *= max(p['mask']['shape'][0] * p['mask']['shape'][1] for p in c['mono'])
+    return f if key == 'field' else f * f
 
 def _cmp_pre(c, a, m, mode, sc):
     """real wavefront `a` (wf_out) vs model wavefront answer `m`: field list on a canvas, field, intensity"""
     box = H7._field_box(a['data'] + m['data'])
     ci = H7._canvas(a['data'], box, H7._np_arr); cm = H7._canvas(m['data'], box, lambda f: H7._dec_arr(f, mode))
-    if not H7._close(ci, cm, mode, sc): return f'fields differ on the canvas (max {np.max(np.abs(ci - cm)):.3g})'
+    if not H7._close(ci, cm, mode, _scale(c, 'field', True)): return f'fields differ on the canvas (max {np.max(np.abs(ci - cm)):.3g})'
     for key in ('field', 'intensity'):
         if key in a:
             if isinstance(m.get(key), str) or key not in m: return f'model {key}: {m.get(key)}'
-            if not H7._close(H7._np_arr(a[key]), H7._dec_arr(m[key], mode), mode, sc): return f'{key} (before propagation) differs'
+            if not H7._close(H7._np_arr(a[key]), H7._dec_arr(m[key], mode), mode, _scale(c, key, True)): return f'{key} (before propagation) differs'
+    return None
+
+def _cmp_chain(real_fields, real_field, real_int, m, bound):
+    """real per-field list (data, offset, tilt values) and propagated views vs the answer of c03.chain"""
+    if not m.get('ok'): return f"model refused ({m.get('err')})"
+    key = lambda f: (f['off'], f['shape'], [[round(v, 15) for v in t] for t in f['tilts']])
+    mf = [dict(f, tilts=[vlib.unfl(t) for t in f['tilts']]) for f in m['fields']]
+    A = sorted(real_fields, key=key); B = sorted(mf, key=key)
+    if len(A) != len(B): return f'{len(A)} fields, model {len(B)}'
+    for x, y in zip(A, B):
+        if x['off'] != y['off'] or x['shape'] != y['shape']: return f"field placement differs: {x['off']}/{x['shape']} vs {y['off']}/{y['shape']}"
+        if x['tilts'] != y['tilts']: return f"per-field tilt list differs: impl {x['tilts']} model {y['tilts']}"
+        if not H7._close(H7._np_arr(x), H7._dec_arr(y, 'cf'), 'cf', bound[0]): return 'field data before propagation differ'
+    for k, real, b in (('field', real_field, bound[1]), ('intensity', real_int, bound[1] ** 2)):
+        if isinstance(m.get(k), str) or k not in m: return f'model {k}: {m.get(k)}'
+        x, y = H7._np_arr(real), H7._dec_arr(m[k], 'cf')
+        if not H7._close(x, y, 'cf', b): return f'propagated {k} differs (max {np.max(np.abs(x - y)):.3g})'
     return None
 
 def compare(c, io, mo):
-    if c['kind'] == 'tilt': return None
+    if c['kind'] == 'mixed':
+        if 'exc' in io: return f"implementation raised {io['exc']}: {io.get('msg')}"
+        b = (_scale(c, 'field', True), _scale(c, 'field'))
+        for name, m in zip(('seg', 'mono'), mo):
+            d = _cmp_chain(io[name]['fields'], io[name]['field'], io[name]['intensity'], m, b)
+            if d: return f'{name}: {d}'
+        return None
+    if c['kind'] == 'tilt':
+        if 'exc' in io or not mo: return None
+        a = max(abs(x) for x in io['pre']['amp']); n = c['shape'][0] * c['shape'][1]
+        return _cmp_chain(io['pre']['fields'], io['field'], io['intensity'], mo[0], (max(1.0, a), max(1.0, a) * n))
     if 'exc' in io: return f"implementation raised {io['exc']}: {io.get('msg')}"
     mode = c['mode']; sc = _scale(c)
     for name, m in zip(('seg', 'mono'), mo):
@@ -252,12 +383,11 @@ def compare(c, io, mo):
         pre = m['pre'] if 'prop' in c else m
         d = _cmp_pre(c, a['pre'], pre, mode, sc)
         if d: return f'{name}: {d}'
-        if len(pre['data']) != a['nfields']: return f"{name}: {a['nfields']} fields, model {len(pre['data'])}"
         if 'prop' in c:
             for key in ('field', 'intensity'):
                 if isinstance(m[key], str): return f'{name}: model {key}: {m[key]}'
                 x, y = H7._np_arr(a[key]), H7._dec_arr(m[key], mode)
-                if not H7._close(x, y, mode, sc): return f'{name}: propagated {key} differs (max {np.max(np.abs(x - y)):.3g})'
+                if not H7._close(x, y, mode, _scale(c, key)): return f'{name}: propagated {key} differs (max {np.max(np.abs(x - y)):.3g})'
     return None
 
 # ------------------------------------------------------------------------------------------ oracle (real code only)
@@ -278,10 +408,11 @@ def _oracle_tilt(c, io):
                     if tb[0] <= r <= tb[1] and tb[2] <= q <= tb[3]: out[r - tb[0], q - tb[2]] += d[i, j]
         return out
     total = place(io['chips'])
-    sc = 1.0 + float(np.max(np.abs(total))) ** 2 + sum(float(np.max(np.abs(_chip_arr(ch)))) for ch in io['chips']) ** 2
-    tol = 1e-9 * sc
+    pk = sum(float(np.max(np.abs(_chip_arr(ch)))) for ch in io['chips'])
+    sc = 1.0 + pk
+    tol = 1e-9 * (1.0 + pk * pk)
     f = H7._np_arr(io['field']); I = H7._np_arr(io['intensity']).real
-    if np.max(np.abs(f - total)) > tol: return 'Wavefront.field is not the coherent sum of the per-segment fields'
+    if np.max(np.abs(f - total)) > 1e-9 * sc: return 'Wavefront.field is not the coherent sum of the per-segment fields'
     if np.max(np.abs(I - H7._nsq(total))) > tol:
         return (f'contributions of different segments landing on the same samples were not added coherently: '
                 f'intensity != |sum of fields|^2 (max {np.max(np.abs(I - H7._nsq(total))):.3g}; {len(io["chips"])} fields, extents {[ch["ext"] for ch in io["chips"]]})')
@@ -292,36 +423,49 @@ def _oracle_tilt(c, io):
             F = _chip_arr(fu)
             if not (E[0] <= e[0] and e[1] <= E[1] and E[2] <= e[2] and e[3] <= E[3]): continue
             crop = F[e[0] - E[0]:e[1] - E[0] + 1, e[2] - E[2]:e[3] - E[2] + 1]
-            if np.max(np.abs(crop - _chip_arr(ch))) > 1e-7 * sc:
+            if np.max(np.abs(crop - _chip_arr(ch))) > 1e-9 * sc:
                 return f'segment {k}: the windowed field with fitted tilt differs from the same window of the full propagation (max {np.max(np.abs(crop - _chip_arr(ch))):.3g})'
     return None
 
 def oracle(c, io):
     if 'exc' in io: return f"raised {io['exc']}: {io.get('msg')}"
     if c['kind'] == 'tilt': return _oracle_tilt(c, io)
+    if c['kind'] == 'mixed':
+        want = ([] if c['wtilt'] is None else [list(c['wtilt'])]) + [[x['x'], x['y']] for x in c['order'] if isinstance(x, dict)]
+        for name in ('seg', 'mono'):
+            for f in io[name]['fields']:
+                if f['tilts'] != want: return f'{name}: a field carries the tilt list {f["tilts"]}, the chain applied {want}'
+        for key in ('field', 'intensity'):
+            x, y = H7._np_arr(io['seg'][key]), H7._np_arr(io['mono'][key])
+            if not H7._close(x, y, 'cf', _scale(c, key)):
+                return f'segmented and monolithic {key} differ after a tilt / segmented plane / tilt chain and propagation (max {np.max(np.abs(x - y)):.3g})'
+        for name in ('seg', 'mono'):
+            f = H7._np_arr(io[name]['field'])
+            if not H7._close(H7._np_arr(io[name]['intensity']), H7._nsq(f), 'cf', _scale(c, 'intensity')): return f'{name}: intensity != |field|^2 after propagation'
+        return None
     mode = c['mode']; sc = _scale(c)
     s, m = io['seg'], io['mono']
     for key in ('field', 'intensity'):
         x, y = H7._np_arr(s['pre'][key]), H7._np_arr(m['pre'][key])
-        if not H7._close(x, y, mode, sc):
+        if not H7._close(x, y, mode, _scale(c, key, True)):
             return f'segmented and monolithic {key} differ after the chain of planes (max {np.max(np.abs(x - y)):.3g})'
     # coherent addition: the intensity is the squared modulus of the summed complex amplitudes
     for name, r in (('segmented', s), ('monolithic', m)):
         f = H7._np_arr(r['pre']['field'])
-        if not H7._close(H7._np_arr(r['pre']['intensity']), H7._nsq(f), mode, sc): return f'{name}: intensity != |field|^2 before propagation'
+        if not H7._close(H7._np_arr(r['pre']['intensity']), H7._nsq(f), mode, _scale(c, 'intensity', True)): return f'{name}: intensity != |field|^2 before propagation'
     if 'prop' in c:
         for key in ('field', 'intensity'):
             x, y = H7._np_arr(s[key]), H7._np_arr(m[key])
-            if not H7._close(x, y, mode, sc):
+            if not H7._close(x, y, mode, _scale(c, key)):
                 return f'segmented and monolithic {key} differ after propagation (max {np.max(np.abs(x - y)):.3g})'
         for name, r in (('segmented', s), ('monolithic', m)):
             f = H7._np_arr(r['field'])
-            if not H7._close(H7._np_arr(r['intensity']), H7._nsq(f), mode, sc):
+            if not H7._close(H7._np_arr(r['intensity']), H7._nsq(f), mode, _scale(c, 'intensity')):
                 return f'{name}: contributions were not added coherently (intensity != |sum of fields|^2, max {np.max(np.abs(H7._np_arr(r["intensity"]) - H7._nsq(f))):.3g})'
     return None
 
 def shrink(c):
-    if c['kind'] == 'tilt': return
+    if c['kind'] in ('tilt', 'mixed'): return
     if len(c['seg']) > 1:
         for i in range(len(c['seg'])):
             d = dict(c); d['seg'] = c['seg'][:i] + c['seg'][i + 1:]; d['mono'] = c['mono'][:i] + c['mono'][i + 1:]
